@@ -458,7 +458,7 @@ impl Corpus {
       let lit = rng.pick(&["shared literal", "label", "another shared string literal"]).to_string();
       let k = rng.range(1, 9);
       let t = format!(
-        "class {cn} {{\n  function make(count: int, label: Str, flag: bool): (int) -> Str =\n    (x) -> if flag {{ label :: Str.fromInt(count + x) }} else {{ Str.fromInt(x - count) :: label }}\n\n  function other(label: Str, count: int): () -> Str = () -> Str.fromInt(count * {k}) :: \"{lit}\" :: label\n\n  function third(a: int, b: Str, c: int, d: Str): (Str) -> Str = (s) -> s :: b :: Str.fromInt(a + c) :: d\n\n  function run(seed: int): unit = {{\n    Process.println({cn}.make(seed, \"{lit}\", seed < {k})(seed + {k}));\n    Process.println({cn}.other(\"{lit}\", seed + 1)());\n    Process.println({cn}.third(seed, \"x\", {k}, \"{lit}\")(\"<\"));\n  }}\n}}\n\n"
+        "class {cn} {{\n  function make(count: int, label: Str, flag: bool): (int) -> Str =\n    (x) -> if flag {{ label :: Str.fromInt(count + x) }} else {{ Str.fromInt(x - count) :: label }}\n\n  function other(label: Str, count: int): () -> Str = () -> Str.fromInt(count * {k}) :: \"{lit}\" :: label\n\n  function third(a: int, b: Str, c: int, d: Str): (Str) -> Str = (s) -> s :: b :: Str.fromInt(a + c) :: d\n\n  function curried(a: int): (int) -> (int) -> int = (b: int) -> (c: int) -> a * {k} + b * c\n\n  function run(seed: int): unit = {{\n    Process.println(Str.fromInt({cn}.curried(seed)(seed + 1)({k})));\n    Process.println({cn}.make(seed, \"{lit}\", seed < {k})(seed + {k}));\n    Process.println({cn}.other(\"{lit}\", seed + 1)());\n    Process.println({cn}.third(seed, \"x\", {k}, \"{lit}\")(\"<\"));\n  }}\n}}\n\n"
       );
       let m = mod_names[mi].clone();
       sources.get_mut(&m).unwrap().push_str(&t);
